@@ -281,7 +281,15 @@ fn run(tier: Tier, seed: u64) -> i32 {
     vcore::quiet_panics();
     let _ = std::fs::create_dir_all(SCRATCH);
     let root = Rng::new(seed);
-    let all = corpus();
+    let mut all = corpus();
+    // seeded random grammars from the farm's generator (markers, node names and callback numbers are reused
+    // across rules, rules are declared in seeded orders): workload for the in-process, fresh-process and permutation parts
+    let n_random = tier.pick(300usize, 2500usize);
+    for k in 0..n_random {
+        let mut rng = root.child("grammar", k as u64);
+        let text = parsim_rt::gen::random_grammar(&mut rng).to_text();
+        all.push((format!("seeded random grammar #{k}"), text));
+    }
     let probe_bin = build_probe();
     let mut verdicts = vcore::Verdicts::new(PROP);
     let mut evaluations = 0usize;
@@ -320,7 +328,7 @@ fn run(tier: Tier, seed: u64) -> i32 {
     // ---- part 1b: fresh processes x cwd x environment (entropy not controlled: real RandomState, ASLR, pids) ----
     let n_native = tier.pick(8usize, 32usize);
     let nw = vcore::workers();
-    let jobs: Vec<(usize, usize)> = (0..base.len()).flat_map(|g| (0..n_native).map(move |v| (g, v))).collect();
+    let jobs: Vec<(usize, usize)> = (0..base.len()).flat_map(|g| (0..(if base[g].0.starts_with("seeded random") { 2 } else { n_native })).map(move |v| (g, v))).collect();
     let results = std::sync::Mutex::new(vec![]);
     std::thread::scope(|sc| {
         for w in 0..nw {
